@@ -172,7 +172,17 @@ double rmae_error_functor<T>::operator()(
     if (delta <= 10.0 * std::numeric_limits<D_DOUBLE>::min())
       err = 0.0;
     else
-      err = 200.0 * delta / (std::fabs(approx) + std::fabs(target));
+    {
+      const auto sum(std::fabs(approx) + std::fabs(target));
+
+      if (std::isfinite(200.0 * delta) && std::isfinite(sum))
+        err = 200.0 * delta / sum;
+      else
+        // With huge operands an intermediate result overflows: the
+        // calculation is performed on halved operands.
+        err = 200.0 * (std::fabs(target / 2.0 - approx / 2.0)
+                       / (std::fabs(approx) / 2.0 + std::fabs(target) / 2.0));
+    }
     // Some alternatives for the error:
     // * delta / std::max(approx, target)
     // * delta / std::fabs(target)
